@@ -109,6 +109,9 @@ class IkeSaController:
         small_tsr = TrafficSelector.from_network(ip_network(xfrm_acquire.sel.daddr.to_ipaddr(sel_family)),
                                                  xfrm_acquire.sel.dport, xfrm_acquire.sel.proto)
         request = ike_sa.process_acquire(small_tsi, small_tsr, xfrm_acquire.policy.index >> 3)
+        # an IKE_SA created for an ACQUIRE that matched no "protect" entry has nothing to negotiate
+        if ike_sa.state == IkeSa.State.INITIAL:
+            self.ike_sas.remove(ike_sa)
 
         # look for ipsec configuration
         return request, ike_sa.my_addr, ike_sa.peer_addr
